@@ -11,14 +11,14 @@ from . import common as C
 from . import ind
 
 PID = 'C13'
-THEOREMS = ['C13_state_machines_are_causal', 'C13_causal_compose', 'C13_causal_pointwise', 'C13_core_indicators_causal']
+THEOREMS = ['C13_state_machines_are_causal', 'C13_causal_compose', 'C13_causal_pointwise', 'C13_core_indicators_causal', 'C13_mfi_keltner_causal']
 EXEMPT_TRAILING = {'minmax': 'order'}          # the extrema detector needs `order` confirming candles
 
 
 def run(tier, seed, replay=None):
     res = C.Result(PID, tier, seed)
     res.trusted = ['Coq 8.16.1 kernel + vm_compute', 'Model/Indicators.v hand-written, tied by value correspondence', 'harness/c13.py, ind.py']
-    res.assumptions = ['the theorem covers the 25 modelled core series; the other indicators (about 145 numba/numpy kernels) are covered by the prefix monitor only',
+    res.assumptions = ['the theorem covers the 29 modelled core series; the other indicators (about 145 numba/numpy kernels) are covered by the prefix monitor only',
                        'binary64 results are compared up to a relative 1e-6 (a prefix changes the order of floating-point summation in some kernels)']
     C.standard_proof_step(res, 'Props.C13', THEOREMS, ['theories/Props/C13.vo', 'theories/Run/IndRun.vo'])
     rng = C.rng_for(seed, PID)
